@@ -181,6 +181,18 @@ def rule_fetchsib(P) -> RuleResult:
                                 or (any(e[0] == 'loop-cut' for e in p.events) and len(incs) not in (n_y, n_y + 1)):
                             fail('count', f'iteration must advance the position by 1 per delivered row; {n_y} rows, position moved by '
                                  f'{[show(i) for i in incs] or "nothing"}')
+        # a fetch consumes rows: it changes the buffer and the position and nothing else of the cursor (arraysize is the caller's
+        # setting: an explicit fetchmany(n) does not change what later size-less calls deliver)
+        for state_, params in [(B, {'size': N}), (B, {'size': None}), (None, {'size': N}), (lambda: SList(), {'size': N})] if name == 'fetchmany' \
+                else [(B, {}), (None, {}), (lambda: SList(), {})]:
+            for p in _run(P, fi, state_, **params):
+                other = sorted({k.args[1] for k in p.heap if isinstance(k, T) and k.op == 'attr' and k.args[0] == CUR} - {'_rows', '_pos'})
+                if other:
+                    fail('state', f'writes cursor attribute(s) {", ".join(other)}: a fetch changes the row buffer and the position only')
+                    break
+            else:
+                continue
+            break
         if len(res.findings) == n0:
             res.ok({'method': name, 'cases': ['not executed', 'exhausted', 'non-empty buffer']})
     fm = cur.methods.get('fetchmany')
@@ -199,8 +211,10 @@ def _execute_paths(P, cur):
     def on_call(fname, fval, recv, args, kwargs, e, node):
         f = str(fname)
         if f.endswith('execute_query'):
+            e.events.append(('x-stage', 'execute_query'))
             return T('tuple', (DESC, ROWS))
         if f.endswith('parser.parse') or f.endswith('compiler.compile'):
+            e.events.append(('x-stage', f.split('.')[-1]))
             return T('call', (f, args, kwargs))
         return NotImplemented
 
@@ -228,6 +242,24 @@ def rule_reset(P) -> RuleResult:
     ip = Engine(P).paths(init, {'self': CUR})
     state = {k.args[1] for p in ip for k in p.heap if isinstance(k, T) and k.op == 'attr' and k.args[0] == CUR} - {'_context', 'arraysize'}
     ex, paths, DESC, ROWS = _execute_paths(P, cur)
+    # parsing, compiling and executing the statement can each fail: the cursor state is replaced as a whole, after the last of
+    # them - a statement that fails leaves the previous result as it was (description, rows, rowcount and rownumber of one result),
+    # unless the state was first put back, as a whole, to what __init__ leaves
+    init_heap = {k.args[1]: v for p0 in ip for k, v in p0.heap.items() if isinstance(k, T) and k.op == 'attr' and k.args[0] == CUR}
+    partial = None
+    for p in paths:
+        stored = {}
+        for e in p.events:
+            if e[0] in ('store', 'aug') and isinstance(e[1], T) and e[1].op == 'attr' and e[1].args[0] == CUR and e[1].args[1] in state:
+                stored[e[1].args[1]] = e[2] if e[0] == 'store' else Sym('CHANGED')
+            elif e[0] == 'x-stage' and stored and not (set(stored) == set(state) and all(stored[a] == init_heap.get(a, Sym('?')) for a in state)):
+                partial = (sorted(stored), e[1])
+    if partial:
+        res.fail(ex.fq, 'reset:partial', f'execute() writes cursor state ({", ".join(partial[0])}) before {partial[1]}() has run: when the statement '
+                 f'fails there, the cursor is left with part of the new state and part of the previous result - rows of the previous '
+                 f'statement are still delivered while rownumber has restarted', loc(ex))
+    else:
+        res.ok({'method': 'execute', 'state_replaced': 'after parse, compile and execute_query have all succeeded'})
     for p in paths:
         if p.outcome != 'return':
             continue
@@ -373,6 +405,19 @@ def rule_column7(P) -> RuleResult:
     else:
         res.ok({'fields': names})
     VARS = T('tuple', tuple(items))
+    # a description entry carries the name and the type it is constructed with, as given: for a pivoted result the names are data
+    # (the values of the second pivot column), and names that differ in blanks or case are different columns
+    init = col.methods.get('__init__')
+    if init is None or len(init.params) < 3:
+        raise AnalysisError('anchor vanished: Column.__init__(name, datatype)')
+    NAME, DTYPE = Sym('NAME_GIVEN'), Sym('TYPE_GIVEN')
+    for p in Engine(P).paths(init, {'self': COL, init.params[1]: NAME, init.params[2]: DTYPE}):
+        got_n, got_t = p.heap.get(T('attr', (COL, '_name'))), p.heap.get(T('attr', (COL, '_type')))
+        if p.outcome == 'raise' or got_n != NAME or got_t != DTYPE:
+            res.fail(init.fq, 'column7:init', f'Column(name, datatype) must keep the name and the type it is given; it keeps '
+                     f'`{show(got_n)[:80]}` and `{show(got_t)[:60]}`' + (f' (raises {p.value[0]})' if p.outcome == 'raise' else ''), loc(init))
+        else:
+            res.ok({'constructor': init.fq, 'keeps': ['name', 'datatype']})
 
     def on_attr(base, attr, e):
         if base == COL and attr == '_vars':
@@ -589,6 +634,12 @@ def rule_execflow(P) -> RuleResult:
                      + (f' (depending on {show(p.decisions[0][0])[:50]})' if p.decisions else ''), loc(em))
         else:
             res.ok({'method': 'executemany', 'executes': 'once per parameter set, in order, repeated sets included'})
+        # ... and the cursor is left as the last execute() left it: executemany itself writes no cursor state (rowcount is the number
+        # of rows of the last statement executed, the rows that can be fetched)
+        own = sorted({k.args[1] for k in p.heap if isinstance(k, T) and k.op == 'attr' and k.args[0] == CUR})
+        if own:
+            res.fail(em.fq, 'execflow:executemany-state', f'executemany() writes cursor state ({", ".join(own)}) besides what each execute() '
+                     f'sets: description, rows, rowcount and position must be those of the last statement executed', loc(em))
         runs.clear()
     if n == 0:
         raise AnalysisError(f'{em.fq}: no path on terms')
